@@ -257,7 +257,9 @@ func checkBindings(c *evalCase) (msg string, info evalInfo) {
 	extra := &gen.Program{}
 	extra.Stmts = append(extra.Stmts, &gen.Let{Name: gen.Ident{Name: "zz_unused_let"}, X: &gen.Num{Text: "41"}})
 	extra.Stmts = append(extra.Stmts, prog.Stmts...)
-	extra.Stmts = append(extra.Stmts, &gen.Let{Name: gen.Ident{Name: "k"}, X: &gen.Unary{Op: "-", X: &gen.Num{Text: "7"}}}, &gen.Let{Name: gen.Ident{Name: "a1"}, X: &gen.Str{Value: "late"}})
+	extra.Stmts = append(extra.Stmts, &gen.Let{Name: gen.Ident{Name: "k"}, X: &gen.Unary{Op: "-", X: &gen.Num{Text: "7"}}}, &gen.Let{Name: gen.Ident{Name: "a1"}, X: &gen.Str{Value: "late"}},
+		// lets after the query may build on each other like any others
+		&gen.Let{Name: gen.Ident{Name: "zz_late1"}, X: &gen.Num{Text: "1"}}, &gen.Let{Name: gen.Ident{Name: "zz_late2"}, X: &gen.Binary{Op: "+", X: gen.ID("zz_late1"), Y: &gen.Num{Text: "1"}}})
 	params2 := map[string]paramVal{"zz_unused_param": {Snippet: "{zz_unused_param: UInt8}", Value: 1}}
 	for n, p := range c.Params {
 		params2[n] = p
